@@ -33,24 +33,36 @@ TAR  == <<"c1", "", "c2">>            \* conflict with an absent remove
 TC3  == <<"c1", "c2", "c3">>
 TC5  == <<"c1", "c2", "c3", "", "c1">>
 RR(t, s) == [t |-> t, s |-> s]
+(* conflicted targets whose terms REPEAT (an add equal to a remove, repeated  *)
+(* absent terms): Merge::simplify is not the identity on them, so an encoder  *)
+(* that simplifies before writing loses the value although the id is the hash *)
+(* of the unsimplified one                                                    *)
+TR1  == <<"c1", "c2", "c2">>          \* [a, b, b]
+TR2  == <<"c2", "c2", "c1">>          \* [b, b, a]
+TR3  == <<"c1", "c1", "c1">>          \* [a, a, a]
+TR4  == <<"c1", "", "">>              \* [a, absent, absent]
+TR5  == <<"", "", "c1">>              \* [absent, absent, a]
+TR6  == <<"c1", "c2", "c3", "c3", "c1">>   \* 5 terms, one cancelling pair
+Repeating == {TR1, TR2, TR3, TR4, TR5, TR6}
+RRBoth(T) == {RR(t, "new") : t \in T} \cup {RR(t, "tracked") : t \in T}
 
 ViewVariants ==
   [heads |-> {{}, {"c1"}, {"c1", "c2"}},
-   lb1   |-> {NoEntry, TN, TAA, TAR, TC3, TC5},
-   lb2   |-> {NoEntry, TN2, TC3},
-   tg1   |-> {NoEntry, TN, TAR, TC3},
-   tg2   |-> {NoEntry, TN2},
+   lb1   |-> {NoEntry, TN, TAA, TAR, TC3, TC5} \cup Repeating,
+   lb2   |-> {NoEntry, TN2, TC3, TR1, TR4},
+   tg1   |-> {NoEntry, TN, TAR, TC3} \cup Repeating,
+   tg2   |-> {NoEntry, TN2, TR2, TR5},
    gitE  |-> BOOLEAN,                  \* remote "git" exists with no refs at all
    orgE  |-> BOOLEAN,
-   gb1   |-> {NoRRef, RR(TN, "new"), RR(TN, "tracked"), RR(TAR, "new"), RR(TC3, "tracked"), RR(AbsentTarget, "tracked")},
-   ob1   |-> {NoRRef, RR(TN2, "new"), RR(TN2, "tracked"), RR(TAA, "new"), RR(TC5, "tracked"), RR(AbsentTarget, "tracked")},
+   gb1   |-> {NoRRef, RR(TN, "new"), RR(TN, "tracked"), RR(TAR, "new"), RR(TC3, "tracked"), RR(AbsentTarget, "tracked")} \cup RRBoth(Repeating),
+   ob1   |-> {NoRRef, RR(TN2, "new"), RR(TN2, "tracked"), RR(TAA, "new"), RR(TC5, "tracked"), RR(AbsentTarget, "tracked"), RR(TR1, "tracked"), RR(TR4, "new")},
    ob2   |-> {NoRRef, RR(TN, "new"), RR(TN, "tracked")},
-   gt1   |-> {NoRRef, RR(TN, "tracked"), RR(TN, "new"), RR(AbsentTarget, "tracked")},
-   ot1   |-> {NoRRef, RR(TN2, "new"), RR(TC3, "tracked")},
-   gr1   |-> {NoEntry, TN, TC3, TAR},
-   gr2   |-> {NoEntry, TN2},
-   gh1   |-> {NoEntry, TN, TC3},
-   gh2   |-> {NoEntry, TN2, TC3},
+   gt1   |-> {NoRRef, RR(TN, "tracked"), RR(TN, "new"), RR(AbsentTarget, "tracked")} \cup RRBoth(Repeating),
+   ot1   |-> {NoRRef, RR(TN2, "new"), RR(TC3, "tracked"), RR(TR2, "new"), RR(TR6, "tracked")},
+   gr1   |-> {NoEntry, TN, TC3, TAR} \cup Repeating,
+   gr2   |-> {NoEntry, TN2, TR3, TR6},
+   gh1   |-> {NoEntry, TN, TC3} \cup Repeating,
+   gh2   |-> {NoEntry, TN2, TC3, TR1, TR5},
    wc1   |-> {"", "c1", "c2"},
    wc2   |-> {"", "c2"}]
 
